@@ -101,6 +101,8 @@ def enumerate_cases(shard: int, nshards: int) -> Iterable[Dict[str, Any]]:
             continue
         for depth, via in SHAPES:
             yield {"module": m, "name": n, "depth": depth, "via": via, "args": [PROBE_ARG]}
+        # the same name asked for in a sub-module that is not loaded (its parent is, and has the name): unresolvable all the same
+        yield {"module": m + ".vt_not_loaded", "name": n, "depth": 0, "via": None, "args": [PROBE_ARG]}
 
 
 # ---- generated payload trees
@@ -121,7 +123,8 @@ EXC_TARGETS = [
 ]
 UNRESOLVED = [
     ("vt_trapmod", "nope"), ("vt_trapmod", "GoodExc.nope"), ("vt_trapmod", "sub.nope.deeper"), ("builtins", "NoSuchError"),
-    ("vt_unloaded_trap", "Boom"), ("vt_unloaded_trap", "run"), ("not.a.loaded.module", "X"), ("vt_unloaded_pkg.sub", "Boom"), ("vt_unloaded_pkg.nosuch", "X"), ("vt_unloaded_pkg", "sub.Boom"), ("json.nonexistent_submodule", "X"),
+    ("vt_unloaded_trap", "Boom"), ("vt_unloaded_trap", "run"), ("not.a.loaded.module", "X"), ("vt_unloaded_pkg.sub", "Boom"), ("vt_unloaded_pkg.nosuch", "X"), ("vt_unloaded_pkg", "sub.Boom"), ("json.nonexistent_submodule", "X"), ("json.nonexistent_submodule", "JSONDecodeError"), ("os.not_there", "error"), ("os.not_there", "system"),
+    ("vt_trapmod.nosuchsub", "GoodExc"), ("vt_trapmod.nosuchsub", "func"), ("vt_trapmod.sub.deeper", "SubExc"), ("builtins.x", "ValueError"), ("asyncio.nope.deeper", "CancelledError"),
     ("vt_trapmod_lazy", "LazyExc"), ("vt_trapmod_lazy", "lazy_func"), ("vt_trapmod_lazy", "lazy_sub.run"), ("vt_trapmod_lazy", "nope"), ("vt_trapmod_lazysub", "LazyExc"), ("vt_trapmod_lazysub", "lazy_func"), ("vt_trapmod_lazysub", "computed"),
     ("vt_trapmod", "handler.<locals>.ValidationFailed"), ("not.loaded.mod", "Page[int].NotFound"), (None, "billing-service.QuotaError"), ("vt_trapmod", "Quota Error"),
     ("vt_trapmod", ""), ("", "ValueError"), (None, "SomeRemoteError"), (None, "eval"), (None, "os.system"),
@@ -148,7 +151,9 @@ def payloads() -> Any:
 def parts(tier: str) -> List[Part]:
     if tier == "thorough":
         return [Part("all_names", "enum", shards=16, examples=0, enumerate=enumerate_cases, exhaustive=True, soft_deadline_s=2400),
-                Part("payloads", "given", shards=8, examples=20000, strategy=payloads, soft_deadline_s=1500)]
+                Part("payloads", "given", shards=8, examples=20000, strategy=payloads, soft_deadline_s=1500),
+                # the same payload strategy driven by libFuzzer (atheris) with branch coverage of `taskiq` as guidance
+                Part("payloads_cov", "covguided", shards=4, examples=20000, strategy=payloads, soft_deadline_s=1500)]
     return [Part("all_names", "enum", shards=12, examples=0, enumerate=enumerate_cases, exhaustive=True, soft_deadline_s=200),
             Part("payloads", "given", shards=4, examples=2500, strategy=payloads, soft_deadline_s=100)]
 
